@@ -121,6 +121,20 @@ def impl(case):
     shared = mh.StateTraj(A(trajs))
     out['objseq'] = battery(shared, case['lag'], case['S'], case['F'], which=['coring', 'emm', 'wt', 'paths', 'coring'])
     out['objseq']['emm2'] = battery(shared, case['lag'], case['S'], case['F'], which=['emm'])['emm']
+    if not case.get('light'):
+        # every row of implied_timescales belongs to its own lag: lag lists in any order (a lag longer than some
+        # trajectories listed BEFORE a shorter one) give the rows of the single-lag calls
+        import numpy as _np
+        lens = sorted(len(t) for t in trajs)
+        l_big = max(2, lens[0] if len(lens) > 1 else 3)
+        l_small = 1
+        def its(lags):
+            try:
+                return [['nan' if _np.isnan(x) else float(x).hex() for x in row] for row in _np.asarray(mh.msm.implied_timescales(A(trajs), lags), dtype=float)]
+            except Exception as exc:  # noqa
+                return 'err:' + type(exc).__name__
+        both, one_b, one_s = its([l_big, l_small]), its([l_big]), its([l_small])
+        out['its_order'] = {'both': both, 'single': [one_b[0] if isinstance(one_b, list) else one_b, one_s[0] if isinstance(one_s, list) else one_s]}
     present = sorted({v for t in trajs for v in t})
     if len(trajs) >= 2 and len(present) >= 3 and not case.get('light'):
         # lumped objects: the same set in both orders, and the macrostate trajectories passed plainly
@@ -174,6 +188,10 @@ def judge(case, ibc, answers):
             if not _close(b[name], p[name]):
                 P('impl-vs-spec', '%s changes when the trajectories are reordered: %s vs %s' % (
                     name, C.short(b[name], 120), C.short(p[name], 120)))
+        io = r.get('its_order')
+        if io and isinstance(io['both'], list) and all(isinstance(x, list) for x in io['single']) and not _close(io['both'], io['single']):
+            P('impl-vs-spec', 'implied_timescales for the lag list [long, short] %s differs from the rows of the single-lag calls %s' % (
+                C.short(io['both'], 100), C.short(io['single'], 100)))
         osq = r.get('objseq')
         if osq:
             for name in ('emm', 'wt', 'paths', 'coring'):
